@@ -36,7 +36,7 @@ class C02(core.Check):
                                        'align:from-aligned', 'align:from-unaligned', 'align:default-page',
                                        'align:explicit-page', 'align:non-power-of-2', 'muted-line', 'excluded-line',
                                        'const-from-const', 'label-before:instr', 'label-before:data', 'label-before:fill',
-                                       'label-at-end']}
+                                       'label-at-end', 'zerountil:behind-by-2+', 'zerountil:adjacent', 'zerountil:ahead']}
 
     def make_case(self, g, rng, extra_tags=()):
         isa = g.isa
@@ -131,6 +131,30 @@ class C02(core.Check):
                                {'k': 'data', 'width': 1, 'vals': [0xEF]}]
                     if g.finish():
                         yield self.make_case(g, rng, ['align-sweep'])
+
+        # directed .zerountil cases: the target lies rel bytes from the cursor; the following lines sit right after it
+        for a in ([0x10, 0x40, 0x7F] if tier == 'quick' else [0, 1, 0x10, 0x3F, 0x40, 0x7F, 0x100, 0x1234]):
+            for rel in (-9, -4, -3, -2, -1, 0, 1, 2, 7):
+                for moved in (False, True):
+                    if a + rel < 0:
+                        continue
+                    rng = core.rng_for(0, self.pid, 'zu', a, rel, moved)
+                    g = gen_prog.Structured(rng, 16, {'zones': False})
+                    g.isa = gen_prog.layout_isa(16)
+                    g.zones = []
+                    g.origin = 0
+                    g.page = 1
+                    # cursor reaches a + 9 before the directive; target = cursor + rel
+                    pre = [{'k': 'org', 'addr': a, 'zone_name': None}, {'k': 'fill', 'n': 9, 'v': 0xC3}]
+                    if moved:
+                        # the bytes behind the cursor were placed elsewhere, so addresses behind the cursor are free
+                        pre = [{'k': 'org', 'addr': a + 9, 'zone_name': None}]
+                    g.lines = pre + [{'k': 'zerountil', 'a': a + 9 + rel},
+                                     {'k': 'label', 'name': 'after', 'scope': 'g'},
+                                     {'k': 'data', 'width': 2, 'vals': [{'ref': 'after', 'k': 0}, {'ref': 'later', 'k': 1}]},
+                                     {'k': 'label', 'name': 'later', 'scope': 'g'}, {'k': 'data', 'width': 1, 'vals': [0xEF]}]
+                    if g.finish():
+                        yield self.make_case(g, rng, ['zerountil-sweep', 'zerountil:' + ('behind-by-2+' if rel <= -2 else 'adjacent' if rel == -1 else 'ahead')])
 
     def judge(self, case, outcomes):
         o = outcomes[0]
